@@ -91,7 +91,7 @@ func ruleCLIExit(p *Prog, r *Result) {
 					if e.Kind == "extcall" && strings.HasPrefix(e.Callee, "fmt.Fprint") && len(e.Args) > 0 && isStderr(e.Args[0]) {
 						diag = true
 					}
-					if e.Callee == "(*github.com/jessevdk/go-flags.Parser).Parse" {
+					if strings.HasPrefix(e.Callee, "(*github.com/jessevdk/go-flags.Parser).Parse") {
 						diag = true // go-flags prints its own diagnostic
 					}
 				}
